@@ -12,6 +12,9 @@
    generated case.
    C06_reference_elements / C06_references_written_once: under a written node exactly the references that point at it (inverse) and those
    that leave it for a node that is not written (forward); every reference with an endpoint in U is written exactly once, no other is.
+   C06_identifier_resolution: whatever index the writer prints for a NodeId of the graph, the document's own NamespaceUris table maps it
+   back to the URI that node has in the graph (remap, compaction and the written table compose to the identity on URIs).
+   C06_read_written: the reader obtains write_doc's document from the written characters.
    C06_partial: the attribute list of a node element (beyond NodeId) and its Value are decided by the
    correspondence run (model document = lxml reading of the written text) and by the independent-reader oracle. *)
 From Coq Require Import String Ascii List Bool Arith NArith ZArith.
